@@ -138,7 +138,7 @@ def extensions_text(ext, S, paren):
 def gen_sentences(tier, seed):
     rnd = random.Random(seed + 17)
     out = []
-    descs = [None, "plain", "it's", "back\\slash", "\\27 literal", "é", "a  b"]
+    descs = [None, "plain", "it's", "back\\slash", "\\27 literal", "é", "a  b", "( paren ) $ X-FOO 'q'", "NAME 'x' DESC"]
     n_rounds = 260 if tier == "quick" else 20000
     for i in range(n_rounds):
         S = Spacer(rnd, 0 if i % 5 == 0 else 1)
@@ -146,7 +146,9 @@ def gen_sentences(tier, seed):
         names = rnd.choice(NAMES)
         desc = rnd.choice(descs)
         obsolete = rnd.random() < .4
-        ext = rnd.choice([{}, {"FOO": ["abc"]}, {"A-b_C": ["v1", "it's"], "x": ["\\"]}, {"ORIGIN": ["RFC 4519"], "Y": ["a", "b", "c"]}])
+        ext = rnd.choice([{}, {"FOO": ["abc"]}, {"A-b_C": ["v1", "it's"], "x": ["\\"]}, {"ORIGIN": ["RFC 4519"], "Y": ["a", "b", "c"]},
+                          # characters that are structural outside a quoted string are ordinary inside one
+                          {"ORIGIN": ["RFC 4519 (user schema)", "draft"]}, {"P": ["a ) b", "( c", "$", "X-Q 'z'"], "Q": [")"]}, {"R": ["( 'x' )"]}])
         oid = rnd.choice(["1.2", "2.5.6.6", "0.9.2342.19200300.100.1.1", "1.0.10.200"])
         head = "(" + S.wsp() + oid
         if names:
